@@ -27,7 +27,7 @@ def run(chk):
     san = vlib.build_impl("san")
     gen_orders.run(san)
     # process layer under sanitizers (includes proofs + corpus/sim + monitors for aborts)
-    simcheck.run(chk, gen_sim.PROFILES, total_quick=6000, total_thorough=40000, variant="san",
+    simcheck.run(chk, gen_sim.PROFILES, total_quick=10000, total_thorough=40000, variant="san",
                  extra_targets=["hhmain", "evmain"])
     lean_sim = vlib.lean_exe("simmain")
     c_sim = vlib.cc_harness("simdrv", san)
